@@ -191,7 +191,7 @@ PROPS = {
         ],
     },
     "C01": {
-        "coq_targets": ["theories/VM/Corr.vo", "theories/VM/GenProofs.vo"],
+        "coq_targets": ["theories/VM/Corr.vo", "theories/VM/GenProofs.vo", "theories/VM/ValidateProofs.vo"],
         "harness": ["c01"],
         "tables": True,
         "disagreement_is_violation": True,
@@ -206,7 +206,7 @@ PROPS = {
             "NOT modelled: DATA/READ, sub-programs, arrays, user-defined types, string functions inside core programs, ON ERROR; the parser and linter are exercised (programs go through them) but only their output is compared, through the instruction list",
         ],
         "assumptions": [
-            "theorems cover all expressions and straight-line programs; IF/SELECT/FOR/WHILE/DO are decided per generated program by evaluating Corr.check_c01 in Coq (translation-validation style), not by a universal theorem",
+            "theorems cover all expressions, straight-line programs, and every instruction list accepted by the proved validator VM/Validate.check_program (IF/SELECT/FOR/WHILE/DO nested to any depth, runs of any length); that the real generator's output is accepted is decided per generated program by evaluating the validator in Coq on the real instruction list (case 'valid'), not by a universal theorem about the generator",
             "expressions are well-typed (the linter's job, C12)",
         ],
     },
